@@ -1,8 +1,11 @@
 """C16 — public views and default exports never contain private key material.
 
-Proof side: Model/PublicView.v (object-state machine of Key / HDKey / WalletKey attribute contents, exports and
-the database column model), tied to keys.py / wallets.py / db.py by translator/gen_fields.py -> Gen/GenFields.v
-and Glue/FieldsGlue.v.  Correspondence side (TESTING, labelled so): taint differential + scan on real objects."""
+Proof side: Model/PublicView.v (object-state machine of Key / HDKey / WalletKey attribute contents, exports, the
+database column model, and the WALLET level: configurations = depth / privacy of the main key, plain or cosigner
+wallets of a multisig wallet; histories on the wallet and its cached key objects; public_master() / wif() as the
+interpreted path tables of the source), tied to keys.py / wallets.py / db.py by translator/gen_fields.py ->
+Gen/GenFields.v and Glue/FieldsGlue.v.  Correspondence side (TESTING, labelled so): taint differential + scan on
+real objects."""
 import json, os
 from core import Case, REPO
 
@@ -21,6 +24,22 @@ ASSUMPTIONS = [
     'tie to /repo (2): taint differential — after every step of random method histories the populated / secret-'
     'bearing attributes of the real object (found by scanning each value for every encoding of the secret) equal '
     'the model state; the return value of each method is scanned and compared with the model export taint',
+    'wallet level: Wallet.public_master / Wallet.wif are the regenerated path tables (every path through the method '
+    'body that ends in a return: tests with polarity + statements) interpreted fail-closed (unknown test: may hold '
+    'either way; unknown body: returns the main key as it is); wallet_public_view_clean holds for every configuration '
+    '(private master / PRIVATE or public account-level / single main key, plain or as cosigner wallets of a multisig '
+    'wallet) and every history; bodies of HDKey.public_master, WalletKey.key, as_json and the argument lists (defaults '
+    'as_private=False, is_private=False, include_private=False) of every view / export entry point are frozen in the '
+    'model and compared with the regenerated ones (wallet_methods_glue)',
+    'wallet differential: after every step of a wallet history the attribute codes of wallet.main_key (of every '
+    'cosigner wallet) and of every WalletKey handed out by public_master(as_private=..) / main_key.public(), and the '
+    'taint of wif / as_dict / as_json / info / repr / key() output, equal the wallet model; get_key / new_key / '
+    'new_account / import_key / signing are made definite by parsing the cached main and account key objects '
+    'afterwards (LOther)',
+    'scan needles: raw 32 bytes (both byte orders), hex, decimal, WIF compressed / uncompressed and extended private '
+    'key for the UNION of a frozen list of version bytes (chainparams / SLIP-0132, in c16_impl.py) and the table the '
+    'library has loaded, chain||key forms, every base58 token that decodes to bytes containing a secret exponent, '
+    'and the BIP38 string returned by an earlier encrypt(); BIP32 master / BIP39 seed are recomputed with hashlib',
     'one-way steps are assumptions of the model (EDeclass / construction of public attributes from the secret): EC '
     'multiplication, HDKey.public() of the nested key inside WalletKey.public(), BIP38 encryption',
     'PARTIAL: Python object graph, pickle, deepcopy, sqlite file layout and SQLAlchemy are runtime; they are covered '
@@ -34,17 +53,50 @@ ASSUMPTIONS = [
 RULE = ('corpus histories ([Wif;Public] etc. for Key and HDKey on every network) first, then seeded random method '
         'histories of length 0..10 (0..12 thorough) over every key kind (private / public, compressed / uncompressed, '
         'point / bytes / hex / WIF / extended-key import, HD master / child / public-only) and every network of '
-        'networks.json; WalletKey histories on private, watch-only and address-only wallet keys; wallet-level export '
+        'networks.json, HD keys also of type single / multisig / p2sh-segwit / already at account depth, WIF with '
+        'explicit foreign version bytes, public_master with account / multisig / witness-type arguments; WalletKey '
+        'histories on private, watch-only and address-only wallet keys; wallet-level export '
         'scans for private / legacy / single-key / watch-only / multisig wallets; raw sqlite file scan with and '
-        'without DB_FIELD_ENCRYPTION_KEY (the run without key is the sensitivity control: the scan must FIND the '
-        'keys).  A case is non-trivial when the adapter produced states (no CRASH); distinct by request')
+        'without DB_FIELD_ENCRYPTION_KEY / _PASSWORD (the run without key is the sensitivity control: the scan must '
+        'FIND the keys), also with account-level private, multisig and single-key wallets in the file on further '
+        'networks / witness types; wallet CONFIGURATIONS (main key = private master | PRIVATE account key | public '
+        'account key | single private | single public; multisig wallets whose 2-3 cosigner wallets are any of these, '
+        'own key private or public; passphrase+password; keys given as objects or WIF strings; watch-only wallet with '
+        'the private master imported later; every witness type; every network) x HISTORIES (key() parses, wif_private '
+        '/ wif_key(prefix) / encrypt of the main key, wif(is_private=True), public_master(as_private=True), '
+        'as_dict/as_json(include_private=True), info, get_key / new_key / new_account / other network / other witness '
+        'type / import_key, signing, closing and reopening, the same on each cosigner wallet) x EVERY public-view '
+        'entry point (public_master() default / as_private=False / per account and network / explicit arguments / '
+        'other witness types, its key() and public(), wif(), as_dict, as_json, info(0|3|5), repr, keys*(as_dict), '
+        'addresslist, wallets_list, every WalletKey as_dict / repr / public(), account(), transactions, the same on '
+        'every cosigner wallet) with a sensitivity control per wallet (the explicit private export must be found).  '
+        'A case is non-trivial when the adapter produced states (no CRASH); distinct by request')
 
 N = 0xFFFFFFFFFFFFFFFFFFFFFFFFFFFFFFFEBAAEDCE6AF48A03BBFD25E8CD0364141
-K_OPS = ['Wif', 'Address', 'AddressUnc', 'Hash160', 'UncHex', 'UncByte', 'Point', 'AsDict0', 'AsDict1', 'AsJson0',
+K_OPS = ['Wif', 'WifAlt', 'Address', 'AddressUnc', 'Hash160', 'UncHex', 'UncByte', 'Point', 'AsDict0', 'AsDict1', 'AsJson0',
          'AsJson1', 'Info', 'Repr', 'Str', 'Encrypt', 'Public', 'DeepCopy', 'Pickle']
 H_OPS = [o for o in K_OPS if o != 'AddressUnc'] + ['HdWif0', 'HdWif1', 'Fingerprint', 'ChildPriv0', 'ChildPriv1',
                                                     'ChildPub', 'PublicMaster']
 WK_OPS = ['Key', 'Public', 'AsDict0', 'AsDict1', 'Repr', 'Balance', 'Name']
+# wallet histories: operations every wallet accepts / only wallets holding a private key / only bip32 wallets
+WAL_OPS = ['MainKey', 'MainWif', 'SrcKey', 'MainPublic', 'Pm0', 'Pm1', 'PmKey', 'Wif0', 'Wif1', 'AsDict0', 'AsDict1',
+           'AsJson0', 'AsJson1', 'Info', 'Repr', 'GetKey', 'Keys', 'Reopen']
+WAL_COS_OPS = ['MainKey', 'MainWif', 'SrcKey', 'MainPublic', 'Pm0', 'Pm1', 'PmKey', 'Wif0', 'Wif1', 'AsDict0', 'AsDict1',
+               'Info', 'Repr']
+WAL_MULTI_TOP = ['SrcKey', 'Pm0', 'Pm1', 'PmKey', 'Wif0', 'Wif1', 'AsDict0', 'AsDict1', 'AsJson0', 'AsJson1', 'Info',
+                 'Repr', 'GetKey', 'NewKey', 'Keys', 'Reopen']
+WAL_PRIVATE_CONFS = ('master', 'acctprv', 'single')
+SIMPLE_CONFS = ['master', 'acctprv', 'acctpub', 'single', 'singlepub']
+MULTI_CONFS = ['ms:acctprv+acctpub:0', 'ms:acctpub+acctprv:1', 'ms:master+acctpub:0', 'ms:master+master:0',
+               'ms:acctprv+acctprv+acctpub:1', 'ms:acctpub+acctpub:0', 'ms:single+singlepub:0',
+               'ms:master+acctpub+single:2', 'ms:acctprv+master:1', 'ms:acctpub+acctpub+acctprv:2']
+WITNESS_TYPES = ['legacy', 'p2sh-segwit', 'segwit']
+# the private exports that warm every cache, then every view (the history of the missed public_master fast path
+# is a prefix of it)
+WAL_WARM = ['MainKey', 'MainWif', 'MainWifKey', 'Wif1', 'Pm1', 'SrcKey', 'AsDict1', 'AsJson1', 'Info', 'Pm0', 'PmKey',
+            'Wif0', 'MainPublic', 'AsDict0', 'Repr', 'Reopen', 'Pm0', 'Wif1', 'Pm0', 'Pm1']
+ESCALATE_CAP = 1200
+
 WK_HANDLE_POS = [1, 22, 24]      # _dbkey, session, wallet in the alphabetical WalletKey field list
 
 
@@ -70,7 +122,8 @@ def gen_cases(rng, tier):
         return bytes(rng.randrange(256) for _ in range(32))
 
     # ---- corpus: the histories of the fixed findings stay in every run
-    corpus = [['Wif', 'Public'], ['Wif', 'Public', 'Pickle'], ['Wif', 'Public', 'DeepCopy', 'Wif'],
+    corpus = [['Wif', 'WifAlt', 'Public'], ['WifAlt', 'Wif', 'WifAlt', 'Public', 'Pickle'], ['WifAlt', 'Public', 'DeepCopy'],
+              ['Wif', 'Public'], ['Wif', 'Public', 'Pickle'], ['Wif', 'Public', 'DeepCopy', 'Wif'],
               ['Info', 'Public', 'DeepCopy'], ['AsDict1', 'Public'], ['AsJson1', 'Public', 'AsDict1'],
               ['Public'], [], ['Wif', 'Address', 'Public', 'Info', 'AsDict0', 'Repr', 'Str']]
     i = 0
@@ -81,6 +134,13 @@ def gen_cases(rng, tier):
                 i += 1
                 fmt = 'decimal' if cls == 'K' else 'arg'
                 cs.append(Case('corpus', key_req(cls, kind, ops, rsecret(), net, rchain(), fmt)))
+    # every kind of HD key (single type, multisig, p2sh-segwit, a key that already sits at account depth) with warm caches
+    for fmt in ('single', 'ms', 'p2sh', 'deep'):
+        for ops in (['Wif', 'WifAlt', 'Public', 'Pickle'], ['Info', 'Public', 'DeepCopy', 'AsDict1'],
+                    ['AsDict1', 'HdWif1', 'Wif', 'Public', 'Info']):
+            net = nets[i % len(nets)]
+            i += 1
+            cs.append(Case('corpus', key_req('H', 'priv1', ops, rsecret(), net, rchain(), fmt)))
     for net in nets:
         cs.append(Case('corpus', key_req('H', 'priv1', ['Wif', 'HdWif1', 'PublicMaster', 'Pickle', 'Info'], rsecret(), net,
                                          rchain(), 'wif')))
@@ -95,9 +155,13 @@ def gen_cases(rng, tier):
         else:
             kind = rng.choice(['priv1', 'priv1', 'priv1', 'priv0', 'pubc', 'pubu'])
             fmt = rng.choice(['arg', 'wif', 'bin']) if kind in ('priv1', 'pubc') else 'arg'
+            if kind == 'priv1' and rng.random() < 0.4:
+                fmt = rng.choice(['single', 'ms', 'p2sh', 'deep'])
             if kind == 'pubc' and fmt == 'bin':
                 fmt = 'arg'
             pool = H_OPS
+            if fmt == 'single':      # (the library refuses every derivation from a key of type 'single')
+                pool = [o for o in H_OPS if o not in ('ChildPriv0', 'ChildPriv1', 'ChildPub', 'PublicMaster')]
         n = rng.randrange(0, 13 if big else 11)
         ops = []
         private = kind.startswith('priv')
@@ -137,6 +201,144 @@ def gen_cases(rng, tier):
         cs.append(Case('dbfile_plain', 'dbfile %s %s' % (seed, net)))
         cs.append(Case('dbfile_key', 'dbfile-enc key %s %s' % (seed, net)))
         cs.append(Case('dbfile_password', 'dbfile-enc password %s %s' % (seed, net)))
+    # the same with further wallet configurations in the file (account-level private keys, multisig wallets holding
+    # private keys at master / account depth, single keys) on other networks and witness types
+    extra = 'acctprv,ms:acctprv+acctpub:0,ms:master+single:1,master'
+    plan = [('dbfile_plain', 'dbfile', 'bitcoinlib_test', 'segwit'), ('dbfile_key', 'dbfile-enc key', 'litecoin_testnet', 'p2sh-segwit'),
+            ('dbfile_password', 'dbfile-enc password', 'dogecoin', 'legacy')]
+    if big:
+        plan += [('dbfile_key', 'dbfile-enc key', n, w) for n, w in (('bitcoinlib_test', 'legacy'), ('litecoin', 'segwit'),
+                                                                      ('bitcoin', 'p2sh-segwit'), ('regtest', 'segwit'))]
+        plan += [('dbfile_password', 'dbfile-enc password', n, w) for n, w in (('bitcoinlib_test', 'segwit'),
+                                                                                ('litecoin_legacy', 'legacy'))]
+        plan += [('dbfile_plain', 'dbfile', 'litecoin', 'legacy')]
+    for kind, head, net, wt in plan:
+        seed = bytes(rng.randrange(256) for _ in range(16)).hex()
+        cs.append(Case(kind, '%s %s %s %s %s' % (head, seed, net, extra, wt)))
+    # ---- wallet configurations x histories x every public-view entry point
+    cs += gen_wal_cases(rng, tier, nets)
+    return cs
+
+
+def wal_wt(rng, net, wt=None):
+    """dogecoin-style networks have no segwit extended-key rows: legacy wallets only."""
+    if net in ('dogecoin', 'dogecoin_testnet'):
+        return 'legacy'
+    return wt or rng.choice(WITNESS_TYPES)
+
+
+def wal_ops_ok(conf, net, ops):
+    """drop the operations a configuration cannot perform (they raise before touching any key)."""
+    out = []
+    if conf.startswith('ms:'):
+        cs = conf.split(':')[1].split('+')
+        own = int(conf.split(':')[2])
+        for o in ops:
+            if '.' in o:
+                i, b = int(o[1:o.index('.')]), o.split('.')[1]
+                if i >= len(cs) or b not in WAL_COS_OPS + ['MainWifKey', 'MainEncrypt']:
+                    continue
+                if b in ('MainWifKey', 'MainEncrypt') and cs[i] not in WAL_PRIVATE_CONFS:
+                    continue
+            else:
+                if o not in WAL_MULTI_TOP + ['Sign']:
+                    continue
+                if o == 'Sign' and not (net == 'bitcoinlib_test' and cs[own] in WAL_PRIVATE_CONFS):
+                    continue
+            out.append(o)
+        return out
+    for o in ops:
+        if '.' in o:
+            continue
+        if o in ('MainWifKey', 'MainEncrypt') and conf not in WAL_PRIVATE_CONFS:
+            continue
+        if o == 'NewKey' and conf in ('single', 'singlepub'):
+            continue
+        if o == 'Sign' and not (net == 'bitcoinlib_test' and conf in WAL_PRIVATE_CONFS):
+            continue
+        if o in ('NewAccount', 'NewKeyWt', 'NewKeyNet') and conf != 'master':
+            continue
+        if o == 'NewKeyWt' and net in ('dogecoin', 'dogecoin_testnet', 'litecoin_legacy'):
+            continue
+        if o == 'NewKeyNet' and net not in ('bitcoin', 'litecoin', 'bitcoinlib_test'):
+            continue
+        if o == 'ImportKey' and conf != 'master':
+            continue
+        out.append(o)
+    return out
+
+
+def wal_req(conf, ops, seed, net, wt, flags='-'):
+    if 'i' in flags:
+        # (reopening after import_master_key fails in the library: key_path is not stored)
+        ops = [o for o in ops if o not in ('Reopen', 'NewAccount', 'NewKeyNet', 'NewKeyWt', 'ImportKey')]
+    return 'wal %s %s %s %s %s %s' % (conf, ','.join(wal_ops_ok(conf, net, ops)) or '-', seed, net, wt, flags)
+
+
+def gen_wal_cases(rng, tier, nets):
+    big = tier == 'thorough'
+    cs = []
+
+    def rseed():
+        return bytes(rng.randrange(256) for _ in range(16)).hex()
+
+    # ---- corpus: every configuration with the cache-warming history followed by every view, every witness type
+    i = 0
+    for conf in SIMPLE_CONFS:
+        for wt in WITNESS_TYPES:
+            net = 'bitcoinlib_test' if i % 2 == 0 else nets[i % len(nets)]
+            i += 1
+            ops = WAL_WARM + (['Sign', 'Pm0'] if net == 'bitcoinlib_test' else [])
+            if wt == 'segwit' and conf in ('acctprv', 'single'):
+                ops = ['MainEncrypt'] + ops
+            cs.append(Case('wal_' + conf, wal_req(conf, ops, rseed(), net, wal_wt(rng, net, wt))))
+    for conf in SIMPLE_CONFS:
+        cs.append(Case('wal_' + conf, wal_req(conf, [], rseed(), 'bitcoin', WITNESS_TYPES[i % 3])))
+        i += 1
+    for j, conf in enumerate(MULTI_CONFS):
+        n = len(conf.split(':')[1].split('+'))
+        net = 'bitcoinlib_test' if j % 2 == 0 else nets[(3 * j) % len(nets)]
+        ops = ['c%d.%s' % (k, o) for k in range(n) for o in ('MainKey', 'MainWif', 'MainWifKey')] + \
+              ['Wif1', 'Pm1', 'SrcKey', 'AsDict1', 'Pm0', 'PmKey', 'Wif0', 'c0.Pm0', 'c1.Pm0', 'c0.MainPublic', 'Info',
+               'AsDict0', 'Repr', 'Sign', 'Reopen', 'Pm0', 'c0.Pm0', 'c1.Pm0', 'Wif0', 'Pm1']
+        cs.append(Case('wal_multisig', wal_req(conf, ops, rseed(), net, wal_wt(rng, net, WITNESS_TYPES[j % 3]))))
+    cs.append(Case('wal_master', wal_req('master', ['Wif1', 'Pm0', 'Reopen', 'Pm0'], rseed(), 'litecoin', 'segwit', 'm')))
+    cs.append(Case('wal_acctprv', wal_req('acctprv', ['Pm0', 'Wif0'], rseed(), 'testnet', 'p2sh-segwit', 'w')))
+    cs.append(Case('wal_master', wal_req('master', ['MainKey', 'Wif1', 'Pm1', 'Pm0', 'Wif0', 'AsDict0', 'MainPublic'], rseed(),
+                                          'bitcoin', 'segwit', 'i')))
+    cs.append(Case('wal_master', wal_req('master', ['NewAccount', 'NewKeyNet', 'NewKeyWt', 'ImportKey', 'Wif1', 'Pm0', 'Keys',
+                                                     'AsDict0', 'Info'], rseed(), 'bitcoin', 'segwit')))
+    # ---- random configurations x histories
+    for _ in range(600 if big else 80):
+        multi = rng.random() < 0.35
+        net = rng.choice(nets) if rng.random() < 0.6 else 'bitcoinlib_test'
+        wt = wal_wt(rng, net)
+        if multi:
+            n = rng.choice([2, 2, 3])
+            # (the library cannot mix single keys with HD keys of other cosigners unless the own key is the single one)
+            fam = ['single', 'singlepub'] if rng.random() < 0.15 else ['master', 'acctprv', 'acctpub']
+            parts = [rng.choice(fam) for _ in range(n)]
+            own = rng.randrange(n)
+            if rng.random() < 0.8:
+                parts[own] = fam[0] if len(fam) == 2 else rng.choice(['master', 'acctprv', 'acctprv'])
+            conf = 'ms:%s:%d' % ('+'.join(parts), own)
+            pool = WAL_MULTI_TOP + ['Sign'] + ['c%d.%s' % (k, o) for k in range(n) for o in WAL_COS_OPS + ['MainWifKey']]
+        else:
+            conf = rng.choice(SIMPLE_CONFS + ['acctprv', 'acctprv'])
+            pool = WAL_OPS + ['MainWifKey', 'NewKey', 'Sign', 'NewAccount', 'NewKeyNet', 'NewKeyWt', 'ImportKey']
+        ops = []
+        for _ in range(rng.randrange(0, 13 if big else 9)):
+            ops.append(rng.choice(pool) if rng.random() > 0.25 else rng.choice(['Pm0', 'Pm0', 'Wif0', 'PmKey']))
+        flags = '-'
+        if not multi and conf == 'master' and rng.random() < 0.25:
+            flags = 'i'
+        elif not multi and conf == 'master' and rng.random() < 0.3:
+            flags = 'm'
+        elif rng.random() < 0.2:
+            flags = 'w'
+        elif multi and rng.random() < 0.2:
+            flags = 'n'
+        cs.append(Case('wal_' + ('multisig' if multi else conf), wal_req(conf, ops, rseed(), net, wt, flags)))
     return cs
 
 
@@ -146,7 +348,29 @@ def model_req(c):
         return ' '.join(t[:4])
     if t[0] == 'wk':
         return ' '.join(t[:3])
+    if t[0] == 'wal':
+        return ' '.join(t[:3])
     return 'skip'
+
+
+def _norm_wal(s):
+    """database handles (_dbkey, session, wallet) are not followed by the scan: S and P are the same there."""
+    out = []
+    for tok in s.split(' '):
+        p = tok.split(':')
+        if len(p) == 4:
+            for j in (2, 3):
+                parts = []
+                for codes in p[j].split('/'):
+                    codes = list(codes)
+                    if len(codes) > max(WK_HANDLE_POS):
+                        for i in WK_HANDLE_POS:
+                            if codes[i] == 'S':
+                                codes[i] = 'P'
+                    parts.append(''.join(codes))
+                p[j] = '/'.join(parts)
+        out.append(':'.join(p))
+    return ' '.join(out)
 
 
 def _norm_wk(s):
@@ -165,11 +389,13 @@ def _norm_wk(s):
 
 def same(c, impl_out, model_out):
     t = c.req.split(' ')[0]
-    if t not in ('key', 'wk'):
+    if t not in ('key', 'wk', 'wal'):
         return True
     if impl_out.startswith('CRASH'):
         return True          # reported by prop_check
     states = impl_out.split(' ## ')[0]
+    if t == 'wal':
+        return _norm_wal(states) == _norm_wal(model_out)
     if t == 'wk':
         return _norm_wk(states) == _norm_wk(model_out)
     return states == model_out
@@ -183,20 +409,19 @@ def real_leaks(out):
     if ' ## ' not in out:
         return []
     l = out.split(' ## ', 1)[1]
-    if l == '-':
-        return []
-    return [x for x in l.split(' | ') if '-raised:' not in x and '-failed:' not in x]
+    return [x for x in l.split(' | ') if x != '-' and not x.startswith('control=') and '-raised:' not in x
+            and '-failed:' not in x]
 
 
 def prop_check(c, out):
     if out.startswith('CRASH') or out == 'BADREQ':
         return 'adapter could not run the case: %s' % out[:160]
     t = c.req.split(' ')[0]
-    if t in ('key', 'wk', 'wallet'):
+    if t in ('key', 'wk', 'wallet', 'wal'):
         lk = real_leaks(out)
         if lk:
             return 'private key material found in a public view / default export: ' + '; '.join(lk[:6])
-        if t == 'wallet' and 'control=MISSED' in out:
+        if t in ('wallet', 'wal') and 'control=MISSED' in out:
             return 'scan sensitivity control failed (explicit private export not recognised)'
         return None
     if t == 'dbfile':
